@@ -769,6 +769,31 @@ def _formatted(repo, rep):
               construct="allocator-args", where=L.where(
                   f, bare[0].lineno) if bare else wh,
               detail=", ".join(src(n) for n in bare))
+    # the fallback to the undecorated class is for a class that cannot be
+    # derived from, and for nothing else: the try block it guards holds the
+    # derivation only (an allocator refusing the derived class -- the OSError
+    # family -- must not take it)
+    tnames = {src(n.targets[0]) for n in ast.walk(f.node)
+              if isinstance(n, ast.Assign) and n.value in calls}
+    wide = []
+    for t_ in ast.walk(f.node):
+        if not isinstance(t_, ast.Try):
+            continue
+        for h in t_.handlers:
+            undec = [n for n in ast.walk(h) if isinstance(n, ast.Assign)
+                     and src(n.targets[0]) in tnames
+                     and n.value not in calls]
+            if undec and any(isinstance(n, ast.Call) and
+                             isinstance(n.func, ast.Attribute) and
+                             n.func.attr == "__new__"
+                             for st in t_.body for n in ast.walk(st)):
+                wide.append(undec[0])
+    rep.check(bool(tnames) and not wide, "R12.5", site, "only a failed "
+              "derivation falls back to the undecorated class (a refused "
+              "allocation keeps the derived class)",
+              construct="undecorated-fallback-scope", where=L.where(
+                  f, wide[0].lineno) if wide else wh,
+              detail=", ".join(src(n) for n in wide))
     rep.check("'__str__': formatter" in text, "R12.5", site,
               "the message is produced by the formatter",
               construct="formatter", where=wh)
